@@ -139,11 +139,19 @@ impl Frame {
             buf
         };
 
-        // Read the payload
-        let mut payload: Vec<u8> = vec![0; length as usize];
-        stream
-            .read_exact(&mut payload)
-            .map_err(|_| WebsocketError::ReadError)?;
+        // Read the payload in bounded chunks, so that memory is only allocated for bytes which actually arrive
+        //   rather than for the length claimed in the header
+        let mut payload: Vec<u8> = Vec::new();
+        let mut remaining = length;
+        let mut chunk = [0_u8; 1024];
+        while remaining > 0 {
+            let n = remaining.min(chunk.len() as u64) as usize;
+            stream
+                .read_exact(&mut chunk[..n])
+                .map_err(|_| WebsocketError::ReadError)?;
+            payload.extend_from_slice(&chunk[..n]);
+            remaining -= n as u64;
+        }
 
         // Unmask the payload
         payload
